@@ -1379,7 +1379,7 @@ def remap(ex, st2):
     return shaped(ex, st2, _reeval_arg0(ex, st2))
 
 
-@model(r'^(std::collections::)?(HashMap|BTreeMap|IndexMap|HashSet|BTreeSet|IndexSet)(?:::<.*>)?::(new|with_capacity|get|get_mut|contains_key|contains|insert|remove|len|is_empty|iter|iter_mut|keys|values|values_mut|clear|entry|first_key_value|last_key_value|pop_first|pop_last|into_keys|into_values|get_key_value|swap_remove|shift_remove|retain|extend|drain|get_index|first|last|with_capacity_and_hasher|default|sort_unstable_keys|sort_keys)$')
+@model(r'^(std::collections::)?(HashMap|BTreeMap|IndexMap|HashSet|BTreeSet|IndexSet)(?:::<.*>)?::(new|with_capacity|get|get_mut|contains_key|contains|insert|remove|len|is_empty|iter|iter_mut|keys|values|values_mut|clear|entry|first_key_value|last_key_value|pop_first|pop_last|into_keys|into_values|get_key_value|swap_remove|shift_remove|retain|extend|drain|get_index|first|last|with_capacity_and_hasher|default|sort_unstable_keys|sort_keys|split_off)$')
 def m_map(ctx):
     ex, st = ctx.ex, ctx.st
     op = ctx.callee.rsplit('::', 1)[1]
@@ -1426,6 +1426,23 @@ def m_map(ctx):
             mm = s2.tr(m); k, v = mm.attrs['items'].pop(idx)
             return some(v) if not is_set else z3.BoolVal(True)
         return map_lookup_alts(ex, st, m, key, found, none() if not is_set else z3.BoolVal(False))
+    if op == 'split_off':
+        if not kind.startswith('BTree') or m.attrs.get('unsorted'):
+            raise MirError('split_off on a map without a known key order')
+        key = ex.deref_val(st, ctx.args[1])
+        if not z3.is_bv(key):
+            raise MirError('split_off with a non-scalar key')
+        n = len(items); alts = []
+        for i in range(n + 1):
+            conds = []
+            if i > 0: conds.append(z3.ULT(ex.deref_val(st, items[i - 1][0]), key))
+            if i < n: conds.append(z3.ULE(key, ex.deref_val(st, items[i][0])))
+            def mk(s2, i=i):
+                mm = s2.tr(m)
+                hi = new_map(mm.ty, mm.attrs['items'][i:]); mm.attrs['items'] = mm.attrs['items'][:i]
+                return hi
+            alts.append((z3.And(*conds) if conds else None, mk))
+        return alts
     if op in ('first_key_value', 'last_key_value', 'pop_first', 'pop_last', 'first', 'last'):
         if kind.startswith('BTree') and m.attrs.get('unsorted'):
             raise MirError('ordered access to a BTreeMap after a symbolic-key insert')
